@@ -11,6 +11,7 @@ import (
 	"go/printer"
 	"go/token"
 	"sort"
+	"strconv"
 	"strings"
 )
 
@@ -92,11 +93,21 @@ func findStmts(body *ast.BlockStmt, from, to string) (*located, error) {
 	}
 	l := found[0]
 	if to != "" {
+		// "#+k" at the end of `to`: the k-th match at or after `from` in the same block
+		want := 1
+		if i := strings.LastIndex(to, "#+"); i > 0 && strings.HasPrefix(to, "@") {
+			if n, err := strconv.Atoi(to[i+2:]); err == nil && n >= 1 {
+				want, to = n, to[:i]
+			}
+		}
 		ok := false
 		for j := l.i; j < len(l.list); j++ {
 			if markerMatches(l.list[j], to) {
-				l.j, ok = j, true
-				break
+				want--
+				if want == 0 {
+					l.j, ok = j, true
+					break
+				}
 			}
 		}
 		if !ok {
@@ -768,8 +779,9 @@ func prefixSp(s string) string {
 //	@call:f       an expression statement, or a single assignment, whose call is to f (text of the callee)
 //	@return       a return statement
 //
-// "#k" at the end picks the k-th match in source order (otherwise the match must be unique in the
-// function for `from`, and the first match after `from` in the same block for `to`).
+// "#k" at the end of `from` picks the k-th match in source order in the function (otherwise the
+// match must be unique).  `to` is the first match at or after `from` in the same block; "#+k" at the
+// end of `to` picks the k-th such match instead.
 func markerOrdinal(m string) (string, int, bool) {
 	if !strings.HasPrefix(m, "@") {
 		return m, 0, false
